@@ -5,6 +5,7 @@ CONSTANTS
   FORWARD_WAKER = TRUE
   READY_DRAINS = FALSE
   FILTER_MODE = "none"
+  CHAIN_MODE = "none"
 INVARIANTS DoneInv
 
 CHECK_DEADLOCK FALSE
